@@ -33,14 +33,15 @@ Ltac split_ifs :=
 
 Lemma for_consume_eq : forall st t, gen_for_consume st t = for_consume st t.
 Proof.
-  intros [s f a anns] t. unfold gen_for_consume, for_consume, is_tok, T_NAME, T_OP, S_NOT_RUNNING, S_START_SOON, S_RUNNING.
+  intros [s f a anns] t. unfold gen_for_consume, for_consume, is_layout, is_tok, T_NAME, T_OP, T_NEWLINE, T_INDENT, T_DEDENT, T_ENDMARKER,
+    S_NOT_RUNNING, S_START_SOON, S_RUNNING.
   cbn [fp_state fp_for fp_ann fp_anns].
   destruct (ttyp t =? 1) eqn:N; destruct (ttyp t =? 55) eqn:P; cbn [andb];
     destruct (String.eqb (tstr t) "for") eqn:F; destruct (String.eqb (tstr t) ":") eqn:C;
     destruct (String.eqb (tstr t) "in") eqn:I; cbn [fp_state fp_for fp_ann fp_anns andb];
     try (contra; fail);
     destruct (s =? 1) eqn:S1; destruct (s =? 3) eqn:S3; cbn [negb]; try (contra; fail);
-    destruct a; try reflexivity.
+    destruct (z_in [4; 5; 6; 0] (ttyp t)); destruct a; try reflexivity.
 Qed.
 
 Lemma hex_consume_eq : forall st t r, gen_hex_consume st t r = hex_consume st t r.
